@@ -19,6 +19,13 @@ pub fn k3s() -> Vec<Vec<u8>> {
     vec![b"caa".to_vec(), b"e".to_vec(), b"f".to_vec()]
 }
 
+/// "caa" < "cab" < "e": a file holding caa and e (one entry per block) has the index separator
+/// "d" after caa's block, so a lookup of cab — stored in an older file only — runs off the end of
+/// that block without leaving the file's range
+pub fn k3g() -> Vec<Vec<u8>> {
+    vec![b"caa".to_vec(), b"cab".to_vec(), b"e".to_vec()]
+}
+
 /// `k3` plus a key that is never written ("d", between c and e): reads of it exhaust the allowed
 /// seeks of level-0 files whose range covers it without containing it (seek-triggered compaction)
 pub fn k4() -> Vec<Vec<u8>> {
@@ -296,8 +303,13 @@ pub fn c01_families(tier: &str) -> Vec<SeqSpec> {
     let t = thorough(tier);
     let mut v = vec![];
     // F-flush: every mutating op followed by a flush
-    v.push(spec("F-flush/T300", &["T300"], k3(), a1(), if t { 7 } else { 5 }, READS).flush());
+    // (quick: depth 4 over the full alphabet plus depth 6 over two keys, so that every family of
+    // the list fits the quick budget; the depth-5 state that exposed H1 lies inside the second one)
+    v.push(spec("F-flush/T300", &["T300"], k3(), a1(), if t { 7 } else { 4 }, READS).flush());
+    v.push(spec("F-flush2/T300", &["T300"], k2(), a_small2(), if t { 9 } else { 6 }, READS).flush());
     v.push(spec("F-flush/T1", &["T1"], k3s(), a1(), if t { 6 } else { 4 }, READS).flush());
+    // gap keys + a filter that lets every lookup through (see `k3g`)
+    v.push(spec("F-gap/T300p", &["T300p", "T1p"], k3g(), a1(), if t { 6 } else { 4 }, READS).flush());
     // F-reopen: reopen with configuration change, ranged compaction, quiesce
     let mut ar = a1();
     ar.extend(reopen_ops(4));
@@ -342,6 +354,20 @@ pub fn c01_families(tier: &str) -> Vec<SeqSpec> {
     v.push(trivial_move_family(t, READS));
     v.push(rich_family("F-rich/T300", k3s(), a1(), if t { 6 } else { 4 }, READS));
     v.push(levels_family("F-levels/L", "L", k4(), a1(), if t { 6 } else { 4 }, READS));
+    // from the empty database with tiny level limits: files with distinct keys are moved down level
+    // by level without being rewritten (trivial moves), the same file several times within one
+    // manifest, and the manifest is replayed by the reopen
+    v.push(
+        spec(
+            "F-levels-moves/L",
+            &["L", "Ln"],
+            k4(),
+            vec![Op::Put(0, 0), Op::Put(1, 0), Op::Put(2, 0), Op::Put(3, 0), Op::Del(1), Op::Reopen(0), Op::Reopen(1), Op::Compact(None, None)],
+            if t { 7 } else { 5 },
+            READS,
+        )
+        .flush(),
+    );
     v
 }
 
@@ -460,6 +486,19 @@ fn a_c03() -> Vec<Op> {
     a
 }
 
+/// puts / a batch on the three gap keys, snapshots, full compaction
+fn a_c03_small3() -> Vec<Op> {
+    vec![
+        Op::Put(0, 0),
+        Op::Put(1, 0),
+        Op::Batch(vec![(0, true), (2, true)]),
+        Op::Del(1),
+        Op::Snap,
+        Op::Release(0),
+        Op::Compact(None, None),
+    ]
+}
+
 fn a_c03_small() -> Vec<Op> {
     vec![
         Op::Put(0, 0),
@@ -482,6 +521,15 @@ pub fn c03_seq_families(tier: &str) -> Vec<SeqSpec> {
     fams.push(spec("C03-small/R", &["R"], k2(), a_c03_small(), if t { 7 } else { 5 }, ck).lazy());
     fams.push(rich_family("C03-rich/T300", k3(), a_c03(), if t { 4 } else { 3 }, ck));
     fams.push(levels_family("C03-levels/L", "L", k4(), a_c03(), if t { 4 } else { 3 }, ck));
+    // an iterator / snapshot that pins an old version across several later version installs and
+    // releases (flush, compaction, flush): started from the populated LSM so that the pinned
+    // version's tables are below level 0 and get compacted away
+    let a_pin = vec![Op::Put(0, 0), Op::Put(1, 0), Op::Del(2), Op::Iter, Op::DropIter, Op::Snap, Op::Release(0), Op::Compact(None, None)];
+    fams.push(rich_family("C03-pin-rich/T300", k3(), a_pin.clone(), if t { 6 } else { 4 }, ck));
+    fams.push(spec("C03-pin/T300", &["T300"], k2(), vec![Op::Put(0, 0), Op::Put(1, 0), Op::Iter, Op::DropIter, Op::Compact(None, None)], if t { 8 } else { 6 }, ck).flush());
+    // shortenable index separators and a filter that lets every lookup through: a snapshot read of
+    // a key whose only entries in a newer file are too new runs past the end of that file's block
+    fams.push(spec("C03-gap/T300p", &["T300p"], k3g(), a_c03_small3(), if t { 6 } else { 4 }, ck).flush());
     // T1: every table holds one entry, so the versions of one key pinned by snapshots straddle
     // adjacent files of a level
     fams.push(spec("C03-small/T1", &["T1"], k2(), a_c03_small(), if t { 8 } else { 5 }, ck).flush());
